@@ -362,6 +362,17 @@ def instance_rules(ctx):
                 a = c.args[1]
                 if not (a['k'] in ('copy', 'move') and (a['pl']['l'] in flows or pe.root_of(b, a) in flows)): foreign.append(c)
         ctx.check(not foreign, R + '/returns-union/only-reported', 'T-CARRY', b.name, 'the returned set also receives ids that no partial_evaluate reported (%s)' % ', '.join(sorted({c.item + '@' + b.site(c.bb).split(':')[-1] for c in foreign})), b.site())
+    # the instance keeps every constraint, removed constraint, variable and dependency: partial evaluation rewrites the
+    # functions in place, it never removes an element (a dependent variable stays dependent even if the state fixes it)
+    for f in ('constraints', 'removed_constraints', 'decision_variables', 'decision_variable_dependency'):
+        sh = pe.shrinking_calls(ctx, b, INST, f)
+        assigned = []          # `self.f = rebuilt;` after a take(): judged on what is assigned
+        for bi, st in b.stmts():
+            if st['dst']['p'] and st['rv']['k'] == 'use':
+                fs = [x for x in T.access_path(b, {'k': 'copy', 'pl': st['dst']}, transparent=T.TRANSPARENT_NOCLONE)[0] if 'v1::' in x[0]]
+                if fs and fs == [(fs[0][0], f)] and fs[0][0].endswith(INST): assigned.append(st['rv']['ops'][0])
+        ok_ = not sh or (bool(assigned) and all(pe.complete_field_copy(ctx, b, o, INST, f) == 'yes' for o in assigned))
+        ctx.check(ok_, R + '/unchanged/%s-elements' % f, 'T-ATOMIC', b.name, 'elements of self.%s can be removed (%s)' % (f, ', '.join(sorted({c.item for c in sh}))), b.site(sh[0].bb) if sh else b.site())
     # substituted_value <- the state's value for the variable's own id, for every variable with a value
     loops = [lo for lo in T.for_loops(b) if pe.from_self_field(ctx, b, lo[0].args[0], INST, 'decision_variables')]
     pr = probes_in(b)
@@ -397,4 +408,4 @@ def instance_rules(ctx):
 def check(ctx):
     linear_rules(ctx); quadratic_rules(ctx); polynomial_rules(ctx); delegate_rules(ctx); instance_rules(ctx)
     pe.unmark(ctx)
-    ctx.floor('C03.linear', 10); ctx.floor('C03.quadratic', 22); ctx.floor('C03.polynomial', 18); ctx.floor('C03.delegate', 17); ctx.floor('C03.instance', 42)
+    ctx.floor('C03.linear', 10); ctx.floor('C03.quadratic', 22); ctx.floor('C03.polynomial', 18); ctx.floor('C03.delegate', 17); ctx.floor('C03.instance', 46)
